@@ -506,12 +506,57 @@ def r01_12_maybe_value(ctx):
     ctx.require_min("R01.12", 20)
 
 
+GRAPHS = {
+    "chain of three": {"a": (["int 1"], ["b"]), "b": (["pop"], ["c"]), "c": (["int 1", "return_"], [])},
+    "empty start then code": {"s": ([], ["a"]), "a": (["int 1", "return_"], [])},
+    "if-else with empty join": {"c": (["int 1"], ["t", "e"]), "t": (["int 2", "pop"], ["j"]), "e": (["int 3", "pop"], ["j"]), "j": ([], ["x"]), "x": (["int 1", "return_"], [])},
+    "if without else, empty then": {"c": (["int 1"], ["t", "j"]), "t": ([], ["j"]), "j": ([], ["x"]), "x": (["int 1", "return_"], [])},
+    "loop as first statement": {"s": ([], ["h"]), "h": (["int 1"], ["b", "x"]), "b": (["int 7", "pop"], ["h"]), "x": ([], ["r"]), "r": (["int 1", "return_"], [])},
+    "loop whose body is empty": {"p": (["int 0", "pop"], ["h"]), "h": (["int 1"], ["b", "x"]), "b": ([], ["h"]), "x": (["int 1", "return_"], [])},
+    "loop body only continue": {"h": (["int 1"], ["b", "x"]), "b": ([], ["k"]), "k": ([], ["h"]), "x": (["int 1", "return_"], [])},
+    "nested empty ifs": {"c1": (["int 1"], ["c2", "j1"]), "c2": (["int 2"], ["t", "j2"]), "t": ([], ["j2"]), "j2": ([], ["j1"]), "j1": ([], ["c3"]), "c3": (["int 3"], ["u_", "j3"]), "u_": ([], ["j3"]), "j3": ([], ["x"]), "x": (["int 1", "return_"], [])},
+    "both arms to the same block": {"c": (["int 1"], ["j", "j"]), "j": (["int 1", "return_"], [])},
+    "both arms to the same empty block": {"c": (["int 1"], ["e", "e"]), "e": ([], ["x"]), "x": (["int 1", "return_"], [])},
+    "for loop": {"i": (["int 0", "store 1"], ["h"]), "h": (["load 1"], ["b", "x"]), "b": (["int 5", "pop"], ["st"]), "st": (["load 1", "store 1"], ["h"]), "x": ([], ["r"]), "r": (["int 1", "return_"], [])},
+    "early return arm": {"c": (["int 1"], ["r1", "n"]), "r1": (["int 0", "return_"], []), "n": ([], ["x"]), "x": (["int 1", "return_"], [])},
+    "empty block chain": {"a": ([], ["b"]), "b": ([], ["c"]), "c": ([], ["d"]), "d": (["int 1", "return_"], [])},
+}
+
+
+def r01_6e_normalize(ctx):
+    from rules.graphcommon import GraphWorld, traces, reachable
+    from sa.minieval import Raised
+
+    ctx.rule("R01.6e", "NormalizeBlocks preserves the program: on branch / loop / empty-block shaped graphs (built from the repository's own block classes, with addIncoming and validateTree interpreted as compileSubroutine calls them) the set of op traces from the returned start equals the set from the original start, and the parent pointers validate afterwards")
+    tb = ctx.model.find_class("TealBlock", "pyteal.ir.tealblock")
+    ctx.analysed(tb.methods["NormalizeBlocks"].fq, tb.methods["addIncoming"].fq, tb.methods["validateTree"].fq, tb.methods["Iterate"].fq)
+    for name, spec in GRAPHS.items():
+        W = GraphWorld(ctx)
+        blocks = W.build(spec)
+        start = blocks[next(iter(spec))]
+        before = traces(start)
+        construct = f"NormalizeBlocks[{name}]"
+        try:
+            start.methods["addIncoming"]()
+            start.methods["validateTree"]()
+            new_start = W.class_sym("TealBlock").methods["NormalizeBlocks"](start)
+            new_start.methods["validateTree"]()
+        except Raised as r:
+            ctx.bad("R01.6e", construct, f"the pass dies with {r.exc_text[:60]} on a well-formed graph", tb.methods["NormalizeBlocks"].where)
+            continue
+        after = traces(new_start)
+        ok = after == before
+        ctx.check(ok, "R01.6e", construct, f"traces changed: lost {sorted(before - after)[:2]}, gained {sorted(after - before)[:2]}", tb.methods["NormalizeBlocks"].where, fact={"blocks_before": len(spec), "blocks_after": len(reachable(new_start)), "traces": len(before)})
+    ctx.require_min("R01.6e", 10)
+
+
 def run(ctx):
     r01_3_wiring(ctx)
     r01_1_operands(ctx)
     r01_4_flatten(ctx)
     r01_5_sort(ctx)
     r01_6_root_rebinding(ctx)
+    r01_6e_normalize(ctx)
     r01_7_replace_total(ctx)
     r01_8_api_ops(ctx)
     r01_10_routine_epilogue(ctx)
